@@ -14,7 +14,7 @@ RULE = ('filters with 2-60 samples (irregular spacing, zero / non-zero edges, st
         'bin edges placed exactly on filter end points and nodes); values on a dyadic grid. Compared: every R_i, sum R_i, flux = sum F_i R_i for random / flat / '
         'combined spectra, error^2. non-trivial = the SED range overlaps the filter range in more than a point.')
 EXHAUSTIVE = {'quick': False, 'thorough': False}
-ASSUMPTIONS = ['float rounding: R_i compared with relative tolerance 1e-9 of the largest |R_i| (exact cancellation of large antiderivative values is not reproduced by floats)',
+ASSUMPTIONS = ['float rounding: R_i compared with tolerance 1e-9 of the larger of the largest |R_i| and the integral of |response| over the whole filter (exact cancellation of large antiderivative values is not reproduced by floats)',
                'Filter.read: the frequencies astropy derives from the wavelengths are taken from the implementation (text parsing and c/lambda are oracles)']
 
 
@@ -145,7 +145,10 @@ def judge(case, im, mo):
     disagree, fail = [], []
     mnorm, mR = mo
     pts = sorted((F(a), F(b)) for a, b in zip(im['nu'], im['norm']))
-    scale = max([abs(x) for x in mR] + [Fraction(1, 10 ** 30)])
+    # absolute tolerance: 1e-9 of the larger of the largest |R_i| and the filter's whole integral of |response| (an SED bin that only
+    # touches the filter where its response vanishes collects rounding noise ~1e-30 from frequencies derived as c / lambda)
+    whole = sum((x1 - x0) * (abs(y0) + abs(y1)) / 2 for (x0, y0), (x1, y1) in zip(pts, pts[1:]))
+    scale = max([abs(x) for x in mR] + [whole, Fraction(1, 10 ** 30)])
     tol = scale * Fraction(1, 10 ** 9)
     if case['normalize']:
         for a, b in zip(im['norm'], mnorm):
